@@ -25,11 +25,16 @@ ASSUMPTIONS = [
 ]
 
 
+CASE_MAX_LEN = {"quick": 5, "thorough": 6}
+
+
 def bounds(tier):
     if tier == "quick":
         return dict(contains=dict(alphabet="ACGT", max_len=5, query_len="0..n+2"), extra_contains=dict(alphabet="AC", lens=[6, 7]),
+                    letter_case=dict(alphabet="AaC", max_len=CASE_MAX_LEN["quick"]),
                     slice_len=list(range(1, 6)), slice_bounds="None, -n-2..n+2", steps=[None, 1, 2, -1])
     return dict(contains=dict(alphabet="ACGT", max_len=6, query_len="0..n+2"), extra_contains=dict(alphabet="AC", lens=[7, 8, 9, 10]),
+                letter_case=dict(alphabet="AaC", max_len=CASE_MAX_LEN["thorough"]),
                 slice_len=list(range(1, 9)), slice_bounds="None, -n-2..n+2", steps=[None, 1, 2, 3, -1, -2])
 
 
@@ -50,6 +55,10 @@ def units(tier):
         chunks = 4 if n <= 8 else 16
         for c in range(chunks):
             us.append(("contains", ("AC", n, c, chunks)))
+    # letter case: records and queries over one nucleotide in both cases and a second one (membership is about the letters as they
+    # are written -- a record in lower case contains its own substrings, and nothing it does not spell)
+    for n in range(1, CASE_MAX_LEN[tier] + 1):
+        us.append(("contains", ("AaC", n, 0, 1)))
     for n in b["slice_len"]:
         us.append(("slice", n))
     for c in range(8):
@@ -67,6 +76,8 @@ def space_size(tier):
         total += 4 ** n * sum(4 ** l for l in range(0, n + 3))
     for n in b["extra_contains"]["lens"]:
         total += 2 ** n * sum(2 ** l for l in range(0, n + 3))
+    for n in range(1, CASE_MAX_LEN[tier] + 1):
+        total += 3 ** n * sum(3 ** l for l in range(0, n + 3))
     for n in b["slice_len"]:
         total += 2 * (2 * n + 6) ** 2 * len(b["steps"])
     total += 3 * 3 * len(OPERANDS) + 2 * len(TOPOLOGIES) * len(CTOR_FORMS) + len(SOURCES) * len(MUTATIONS) * 2
